@@ -43,6 +43,7 @@ type mapper struct {
 	deltaAt  int   // n-th call returns a table with a wrong column count
 	delta    int
 	ncalls   int
+	fired    bool // an injected mapper fault was actually delivered to the library
 	override func(name gobinlog.MysqlTableName, call int) (gobinlog.MysqlTable, error, bool)
 }
 
@@ -65,6 +66,7 @@ func (m *mapper) MysqlTable(name gobinlog.MysqlTableName) (gobinlog.MysqlTable, 
 		}
 	}
 	if m.failAt == m.ncalls {
+		m.fired = true
 		return &mtable{name: name}, m.failErr
 	}
 	t, ok := m.tables[name.DbName+"\x00"+name.TableName]
@@ -76,6 +78,7 @@ func (m *mapper) MysqlTable(name gobinlog.MysqlTableName) (gobinlog.MysqlTable, 
 		mt.cols = append(mt.cols, mcol{c.Name, c.Unsigned})
 	}
 	if m.deltaAt == m.ncalls {
+		m.fired = true
 		if m.delta > 0 {
 			for i := 0; i < m.delta; i++ {
 				mt.cols = append(mt.cols, mcol{fmt.Sprintf("extra%d", i), false})
